@@ -20,6 +20,7 @@ params:
   snaps    ticks at which the main thread waits for quiescence and snapshots the registry
   shutdown [{"st": stack, "at": tick, "wait": bool}]
   horizon  tick of the final shutdown of everything + final snapshot
+  share_names  bool: executors at the same position of different stacks carry the same name (one metric label)
 """
 from concurrent.futures import Executor, Future
 
@@ -134,11 +135,12 @@ def _wrap_cancel(ctx, fid, fut, typ, exid, up_cos):
 class LTap(Executor):
     """Transparent recording executor wrapped around layer (typ, exid)."""
 
-    def __init__(self, ctx, delegate, typ, exid, up_cos=None):
+    def __init__(self, ctx, delegate, typ, exid, up_cos=None, inst=0):
         self.ctx = ctx
         self._d = delegate
         self.typ = typ
         self.exid = exid
+        self.inst = inst         # which executor object (several may carry the same name = the same label)
         self.up_cos = up_cos     # id of the CancelOnShutdownExecutor directly above, if any
         self._name = "x%d" % exid
 
@@ -166,7 +168,7 @@ class LTap(Executor):
         ctx = self.ctx
         me = E.SCHED.me()
         thr = me.name if me is not None else "-"
-        E.emit("ExecShutdownCall", k=self.typ, c=self.exid, a=1 if wait else 0)
+        E.emit("ExecShutdownCall", k=self.typ, c=self.exid, a=1 if wait else 0, b=self.inst)
         E.upoint()
         prev = ctx.in_cos.get(thr)
         if self.typ == T_COS:
@@ -179,7 +181,7 @@ class LTap(Executor):
                     ctx.in_cos.pop(thr, None)
                 else:
                     ctx.in_cos[thr] = prev
-        E.emit("ExecShutdownRet", k=self.typ, c=self.exid)
+        E.emit("ExecShutdownRet", k=self.typ, c=self.exid, b=self.inst)
 
 
 class PollFn(object):
@@ -254,9 +256,19 @@ def build(p):
         ctx = Ctx()
         nex = [0]
 
-        def new_exec(tname):
-            nex[0] += 1
-            exid = nex[0]
+        shared = {}
+        ninst = [0]
+
+        def new_exec(tname, pos=0):
+            # share_names: executors at the same position of different stacks get the SAME name, i.e. they feed
+            # the same labelled metrics (the numbers must then describe all of them together)
+            ninst[0] += 1
+            if p.get("share_names") and (tname, pos) in shared:
+                exid = shared[(tname, pos)]
+            else:
+                nex[0] += 1
+                exid = nex[0]
+                shared[(tname, pos)] = exid
             ctx.exec_ids["x%d" % exid] = exid
             return exid, "x%d" % exid
 
@@ -284,7 +296,7 @@ def build(p):
             base = st.get("base", "manual")
             layers = st.get("layers", [])
             up = [LAYER_TYPE[l["t"]] for l in layers] + [None]
-            exid, name = new_exec(base)
+            exid, name = new_exec(base, -1)
             if base == "manual":
                 plan = {j + 1: {"dur": jb.get("D", 100), "cancellable": jb.get("C", True)}
                         for j, jb in enumerate(jobs) if jb.get("st", 0) == si}
@@ -294,15 +306,15 @@ def build(p):
             else:
                 ex, typ = Executors.thread_pool(max_workers=st.get("workers", 2), name=name), TYPES["threadpool"]
             if typ:
-                E.emit("ExecCreated", k=typ, c=exid)
+                E.emit("ExecCreated", k=typ, c=exid, b=ninst[0])
                 ctx.expect_executor(typ, exid)
             # the id of a CancelOnShutdownExecutor directly above is only known once it is created: ids are
             # handed out in order, so it is exid + 1
-            tap = LTap(ctx, ex, typ, exid, up_cos=exid + 1 if up[0] == "cancel_on_shutdown" else None)
+            tap = LTap(ctx, ex, typ, exid, up_cos=exid + 1 if up[0] == "cancel_on_shutdown" else None, inst=ninst[0])
             for li, l in enumerate(layers):
                 tname = LAYER_TYPE[l["t"]]
                 typ = TYPES[tname]
-                exid, name = new_exec(tname)
+                exid, name = new_exec(tname, li)
                 if tname == "map":
                     ex = MapExecutor(tap, map_fn, name=name)
                 elif tname == "flat_map":
@@ -320,9 +332,10 @@ def build(p):
                     ex = TimeoutExecutor(tap, l.get("T", 430) / 1000.0, name=name)
                 else:
                     ex = CancelOnShutdownExecutor(tap, name=name)
-                E.emit("ExecCreated", k=typ, c=exid)
+                E.emit("ExecCreated", k=typ, c=exid, b=ninst[0])
                 ctx.expect_executor(typ, exid)
-                tap = LTap(ctx, ex, typ, exid, up_cos=exid + 1 if up[li + 1] == "cancel_on_shutdown" else None)
+                tap = LTap(ctx, ex, typ, exid, up_cos=exid + 1 if up[li + 1] == "cancel_on_shutdown" else None,
+                           inst=ninst[0])
             tops.append(tap)
         if not PC.REGISTRY:
             raise RuntimeError("metrics are not enabled in the library (MORE_EXECUTORS_PROMETHEUS / import of the "
